@@ -29,7 +29,7 @@ CHUNK = {"quick": 40, "thorough": 100}
 PROBES = ["end_marked_chunk_arrived_early", "duplicate_chunk", "foreign_chunk_ignored", "completed", "timed_out",
           "single_chunk_payload", "empty_payload", "size_known_resolved", "info_after_packets", "upload_completed",
           "upload_failed_under_faults", "turbo", "chunk_boundary_payload", "late_chunk_after_completion",
-          "reordered_delivery"]
+          "reordered_delivery", "ambiguous_silence_not_judged"]
 COMPONENTS = {
     "real": ["XferManager.request / _pump_xfer_replies / _handle_send_xfer_packet / upload_asset / "
              "serve_inbound_xfer_request", "Xfer", "TransferManager.request / _pump_transfer_replies / "
@@ -233,7 +233,7 @@ def run_plan(plan: dict) -> RunResult:
             obj = state["obj"]
             now = loop.time()
             model_complete_now = state["eof"] is not None and all(k in state["have"] for k in range(state["eof"] + 1))
-            if state["failed_expected"]:
+            if state["failed_expected"] or state.get("ambiguous"):
                 return
             if successful(obj) and not model_complete_now:
                 missing = ([k for k in range((state["eof"] or 0) + 1) if k not in state["have"]]
@@ -271,6 +271,7 @@ def run_plan(plan: dict) -> RunResult:
             if not dispatched:
                 return
             relevant = False
+            state["model_complete_before"] = bool(state.get("model_complete"))
             b = p.body_plain
             if kind == "xfer" and key == ("High", 18):
                 xid, pk = struct.unpack("<QI", b[1:13])
@@ -296,8 +297,14 @@ def run_plan(plan: dict) -> RunResult:
             if relevant:
                 # silence longer than the transfer timeout before this message => the transfer has failed
                 ref = state["last_dispatch"] if state["last_dispatch"] is not None else state["t_request"]
-                if state["complete_at"] is None and a.t - ref > 5.0:
-                    state["failed_expected"] = True
+                if not state.get("model_complete_before"):
+                    gap = a.t - ref
+                    if gap > 5.5:
+                        state["failed_expected"] = True
+                    elif gap > 4.5:
+                        # too close to the 5 s timeout to call (delays can add up to the boundary): stop judging
+                        state["ambiguous"] = True
+                        res.probe("ambiguous_silence_not_judged")
                 state["last_dispatch"] = a.t
                 loop.call_later(0.0004, after_instant, "delivery", bool(state.get("model_complete")))
 
@@ -411,7 +418,7 @@ def run_plan(plan: dict) -> RunResult:
             res.violate("HARNESS/iteration-cap")
 
         # ---- end-of-run checks --------------------------------------------------------------------------------
-        if not stopped and kind != "upload" and state["obj"] is not None:
+        if not stopped and kind != "upload" and state["obj"] is not None and not state.get("ambiguous"):
             obj = state["obj"]
             model_complete = state["eof"] is not None and all(k in state["have"] for k in range(state["eof"] + 1))
             if state["failed_expected"] or not model_complete:
